@@ -15,6 +15,7 @@ inside ``C7NContext``):
 """
 import ast
 import contextlib
+import copy
 import inspect
 import io
 import itertools
@@ -555,6 +556,101 @@ def count_table_entries():
 
 
 # ---------------------------------------------------------------------------------------------------
+# Sub-space "histories": a clause translated after other clauses in the same process
+# ---------------------------------------------------------------------------------------------------
+H_KEYS = ["k", "a.b", "tag:Name", "GroupName", "VpcId"]
+
+
+def hist_alphabet():
+    """(resource type, clause): value clauses over 5 keys x 3 forms, the key-carrying related-resource clauses over the
+    3 keys they share with them, and one clause per other rewriter."""
+    out = []
+    for key in H_KEYS:
+        out.append(("ec2", {"type": "value", "key": key, "op": "eq", "value": "x"}))
+        out.append(("ec2", {"type": "value", "key": key, "value": "present"}))
+        out.append(("ec2", {"type": "value", "key": key, "op": "gt", "value": 3, "value_type": "size"}))
+    for typ, rtype in (("security-group", "ec2"), ("vpc", "ec2"), ("kms-key", "efs"), ("subnet", "asg")):
+        for key in H_KEYS[2:]:
+            out.append((rtype, {"type": typ, "key": key, "op": "eq", "value": "x"}))
+    out.append(("ebs-snapshot", {"type": "age", "days": 21, "op": "gt"}))
+    out.append(("ec2", {"type": "image-age", "days": 30, "op": "ge"}))
+    out.append(("ec2", {"type": "marked-for-op", "op": "stop", "tag": "c7n"}))
+    out.append(("ec2", {"type": "tag-count", "count": 8, "op": "gte"}))
+    out.append(("ec2", {"type": "metrics", "name": "CPUUtilization", "days": 4, "period": 86400, "value": 30, "op": "less-than"}))
+    out.append(("s3", {"type": "cross-account", "whitelist": ["123456789012"]}))
+    out.append(("ebs", {"type": "used"}))
+    out.append(("ebs", {"type": "unused"}))
+    out.append(("elb", {"type": "is-logging"}))
+    out.append(("elb", {"type": "shield-enabled", "state": False}))
+    return out
+
+
+def hist_count():
+    n = len(hist_alphabet())
+    return n * n + 2 * n          # every ordered pair; each clause at the end of the whole alphabet read forwards / backwards
+
+
+_H_SNAP = []
+
+
+def _pristine():
+    """The worker's library state as first seen by the history shard; every history starts from it."""
+    from ..explore import procstate
+    if not _H_SNAP:
+        _H_SNAP.append(procstate.snapshot())
+    procstate.restore(_H_SNAP[0])
+
+
+def hist_run(history, last):
+    _pristine()
+    for rtype, clause in history:
+        translate(copy.deepcopy(clause), rtype)
+    return translate(copy.deepcopy(last[1]), last[0])
+
+
+def hist_sig(history, last, alone, after):
+    a = history[-1][1]
+    same = "same-key" if a.get("key") is not None and a.get("key") == last[1].get("key") else "other-key"
+    what = "raises" if after[0] != "ok" else ("no-longer-raises" if alone[0] != "ok" else "text-differs")
+    return f"history:{last[1]['type']}-after-{a['type']}:{same}:{what}"
+
+
+def shard_histories(task):
+    lo, hi = task
+    part = runner.Part()
+    alpha = hist_alphabet()
+    n = len(alpha)
+    alone = [hist_run([], b) for b in alpha]
+    idx = done = 0
+
+    def judge(history, b, j):
+        after = hist_run(history, b)
+        part.case()
+        part.outcome("history:" + ("same" if after == alone[j] else "differs"))
+        if after != alone[j]:
+            part.violation("history-dependent-translation", hist_sig(history, b, alone[j], after),
+                           {"space": "histories", "history": [list(h) for h in history], "clause": list(b), "alone": list(alone[j]), "after": list(after)},
+                           f"{b[1]} ({b[0]}) translates to {alone[j][1]!r} in a fresh state but to {after[1]!r} after translating {[h[1] for h in history]}")
+    for i in range(n):
+        for j in range(n):
+            if lo <= idx < hi:
+                judge([alpha[i]], alpha[j], j)
+                done += 1
+            idx += 1
+    for order in (list(range(n)), list(range(n))[::-1]):
+        for pos, j in enumerate(order):
+            if lo <= idx < hi:
+                judge([alpha[k] for k in order[:pos]] or [alpha[j]], alpha[j], j)
+                done += 1
+            idx += 1
+    part.space("histories", 0, done)
+    if lo == 0:
+        part.sample({"space": "histories", "clauses": n, "first": list(alpha[0]), "last": list(alpha[-1])})
+        part.extra["history_clauses_translatable"] += sum(1 for a in alone if a[0] == "ok")
+    return part
+
+
+# ---------------------------------------------------------------------------------------------------
 def run(ctx):
     c7nrel.selftest()
     tier = ctx.tier
@@ -564,7 +660,9 @@ def run(ctx):
         "list of strings/list of ints; value_type none/size/integer/normalize/swap/unique_size/age/expiration where meaningful; r on both sides of the "
         "comparison boundary; key forms k, a.b, tag:Name); presence: present/absent/not-null/empty x {missing, null, '', [], 0, false, 'x', ['x'], 5, true} x key forms; "
         f"literals: every string over {[CHAR_NAME[c] for c in ALPHABET]} of length <= {max_len(tier)} in each of the positions {POSITIONS}; "
-        "durations: every day count and second count of the bound; tables: every (rewriter, resource type) entry. "
+        "durations: every day count and second count of the bound; tables: every (rewriter, resource type) entry; "
+        f"histories: every ordered pair of a {len(hist_alphabet())}-clause alphabet (value clauses and related-resource clauses sharing keys, one clause per other rewriter), and the "
+        "whole alphabet forwards and backwards, translated in one process state: the last translation must equal the one from the pristine state. "
         "A case is non-trivial iff the translator emits text and the reference (c7nrel) is not UNSPEC; every case is distinct by construction")
     ctx.assumptions = [
         "reference = Custodian's ValueFilter semantics as quoted in mc/ref/c7nrel.py; operands of different kinds, ordering of lists/bools, non-numeric "
@@ -583,7 +681,11 @@ def run(ctx):
     ctx.run_shards(shard_literals, tasks)
     ctx.run_shards(shard_durations, [tier])
     ctx.run_shards(shard_tables, [tier])
+    ctx.run_shards(shard_histories, runner.shards(hist_count(), 8))
     sp = ctx.part.spaces
+    sp["histories"]["cardinality"] = hist_count()
+    if ctx.part.extra.get("history_clauses_translatable", 0) < 0.8 * len(hist_alphabet()):
+        raise runner.HarnessError(f"only {ctx.part.extra.get('history_clauses_translatable', 0)} of {len(hist_alphabet())} history clauses translate at all")
     sp["ops"]["cardinality"] = n_ops
     sp["presence"]["cardinality"] = n_pres
     for pos in POSITIONS:
@@ -621,6 +723,12 @@ def _replay(w):
         status, exp, o, text = duration_case(wit["unit"], wit["count"])
         print(f"{wit['unit']}={wit['count']}: emitted {text!r}; expected {exp} s; observed {outcome.short(o) if o else status}")
         bad = status.startswith("violation")
+    elif space == "histories":
+        b = tuple(wit["clause"])
+        alone = hist_run([], b)
+        after = hist_run([tuple(h) for h in wit["history"]], b)
+        print(f"clause   : {b}\npristine : {alone}\nafter {len(wit['history'])} earlier translation(s): {after}")
+        bad = alone != after
     elif space == "tables":
         import celpy
         st, text = translate(dict(TABLE_CLAUSES[wit["method"]]), wit["rtype"])
